@@ -17,16 +17,16 @@ func init() {
 		Level:       "other",
 		Explanation: "Decides the clauses of the rotation that are visible in the shape of the code: (R1) every modulus in the seat-manager package is the manager's own seat count and no integer literal takes part in circular seat arithmetic (the statement ranges over seat counts 2..10); (R2) in the rotation the new big blind is next-in-with-chips(old BB); with three or more active the small blind is the BB seat as read before the BB store and the dealer the SB seat as read before the SB store (after heads-up: nearest live seat before the new SB); with exactly two active the dealer is next-occupied(new BB) and SB the new dealer; short deck passes the dealer to next-occupied(old dealer); (R3) no path of the rotation to an error exit stores a seat id and the public wrapper refuses before calling it when positions were never initialised; (R4) every seat-id store is dominated by 'active count ≥ 2' and every refusal is conditioned on 'active count < 2' or an unsupported rule; (R5) each circular scan helper visits offsets 1..MaxSeat-1 from its start seat, returns the first seat satisfying exactly its predicate and the unset value otherwise; (R6) eligibility ≡ seated-in ∧ not waiting ∧ has chips, and the active count counts exactly those seats. Also decided since (see the rule list): the first positions (R7), the waiting arc's arithmetic including the wrap (R8), initialise-once / rotate-once per hand (R9), the has-chips refresh after every bankroll change (R10). NOT decided: nobody skipped / never backwards / three seats distinct over all reachable states and histories (numeric state exploration is another technique family).",
 		Rules: map[string]string{
-			"R1": "modulus uniformity: every % in the seat-manager package is by the manager's MaxSeat; no integer literal (≥2) in circular seat arithmetic; the seat count is written only at construction; a new seat manager has seats 0…count-1, all empty, positions unset, not initialised; a new seat player is not seated-in, has chips, is not waiting",
-			"R2": "old-value provenance of BB/SB/dealer in the rotation, per branch",
-			"R3": "refusal purity: no seat-id store on a path to an error exit; wrapper refuses before rotating when uninitialised; no known-nil error returned (inverted test)",
-			"R4": "refusal guard: seat-id stores dominated by active count ≥ 2; refusals only under active count < 2 or unsupported rule",
-			"R5": "scan-helper shape: offsets 1..MaxSeat-1, first match of exactly its predicate, unset otherwise; the backwards search with an eligible-only switch returns the first occupied seat, with the switch on the first eligible one (path by path)",
-			"R6": "eligibility definition and active-count definition; the count starts at 0",
-			"R9": "the open step initialises positions only on the first hand and rotates them exactly once on every later hand (shared with C05.R1)",
+			"R1":  "modulus uniformity: every % in the seat-manager package is by the manager's MaxSeat; no integer literal (≥2) in circular seat arithmetic; the seat count is written only at construction; a new seat manager has seats 0…count-1, all empty, positions unset, not initialised; a new seat player is not seated-in, has chips, is not waiting",
+			"R2":  "old-value provenance of BB/SB/dealer in the rotation, per branch",
+			"R3":  "refusal purity: no seat-id store on a path to an error exit; wrapper refuses before rotating when uninitialised; no known-nil error returned (inverted test)",
+			"R4":  "refusal guard: seat-id stores dominated by active count ≥ 2; refusals only under active count < 2 or unsupported rule",
+			"R5":  "scan-helper shape: offsets 1..MaxSeat-1, first match of exactly its predicate, unset otherwise; the backwards search with an eligible-only switch returns the first occupied seat, with the switch on the first eligible one (path by path)",
+			"R6":  "eligibility definition and active-count definition; the count starts at 0",
+			"R9":  "the open step initialises positions only on the first hand and rotates them exactly once on every later hand (shared with C05.R1)",
 			"R10": "the has-chips flag read by the big-blind scan is refreshed by every bankroll writer for the credited player, from the new bankroll (shared with C05.R4): a player who tops up between hands is not skipped",
-			"R8": "waiting arc (dealer, bb) exclusive at both ends, also across the wrap (shared with C05.R5): the rotation re-evaluates non-active seats with it before choosing the next big blind",
-			"R7": "first positions: BB = chosen active seat; heads-up dealer = SB = the other active seat; otherwise SB = previous active seat of the new BB and dealer = previous active seat of the new SB; short deck dealer = chosen seat; success only after a dealer-seat store; a seat from a backwards search stored only when found; the heads-up search selects exactly the occupied, active seat that is not the big blind",
+			"R8":  "waiting arc (dealer, bb) exclusive at both ends, also across the wrap (shared with C05.R5): the rotation re-evaluates non-active seats with it before choosing the next big blind",
+			"R7":  "first positions: BB = chosen active seat; heads-up dealer = SB = the other active seat; otherwise SB = previous active seat of the new BB and dealer = previous active seat of the new SB; short deck dealer = chosen seat; success only after a dealer-seat store; a seat from a backwards search stored only when found; the heads-up search selects exactly the occupied, active seat that is not the big blind",
 		},
 		Assumptions: []string{"seat ids are 0..MaxSeat-1 (constructor)"},
 		Run:         checkC04,
